@@ -165,6 +165,7 @@ const (
 	pcpKeyIDLen3
 	pcpEmptyPKH
 	pcpOtherRoundCert // a genuine certificate for the same parent from a later round, plus one nil precommit of that round
+	pcpForgedSide     // exact certificate plus a nil entry whose signature is the validator's nil PREVOTE of that round
 	pcpVariants
 )
 
@@ -191,6 +192,23 @@ func (s *sim) mutatePCP(p tmconsensus.CommitProof, prevSet vset, h uint64, paren
 		} else {
 			p.Proofs[parentHash] = keep
 		}
+	case pcpForgedSide:
+		signed := map[int]bool{}
+		for _, sigs := range p.Proofs {
+			for _, sg := range sigs {
+				if len(sg.KeyID) == 2 {
+					signed[int(sg.KeyID[0])<<8|int(sg.KeyID[1])] = true
+				}
+			}
+		}
+		who := 0
+		for i := range prevSet.Keys {
+			if !signed[i] {
+				who = i // prefer a validator without a precommit in the proof (no double signer involved)
+				break
+			}
+		}
+		p.Proofs[""] = append(p.Proofs[""], gcrypto.SparseSignature{KeyID: keyID(who), Sig: sign(prevSet.Keys[who], prevoteBytes(h-1, p.Round, ""))})
 	case pcpExtraNil, pcpUnknownKey, pcpDoubleSigner:
 		target := ""
 		if variant == pcpUnknownKey {
@@ -562,7 +580,7 @@ func (s *sim) execPH(op Op) {
 	if b.Variant == phAltNext {
 		s.altUsed = true
 	}
-	if b.PCP == pcpBelowQuorum || b.PCP == pcpCorruptSig || b.PCP == pcpWrongRound || b.PCP == pcpWrongPKH {
+	if b.PCP == pcpBelowQuorum || b.PCP == pcpCorruptSig || b.PCP == pcpWrongRound || b.PCP == pcpWrongPKH || b.PCP == pcpForgedSide {
 		s.label("must-reject-offered")
 	}
 	res := s.deliverPH(b.PH)
